@@ -132,6 +132,30 @@ def canon(e: ast.AST) -> Tuple[str, bool]:
                 flip = not flip
             e, changed = e.left.args[0], True
     if isinstance(e, ast.Compare) and len(e.ops) == 1:
+        # s.find(x) compared with -1 / 0 is membership: find() != -1, find() >= 0, find() > -1  <=>  x in s
+        def _neg1(x):
+            return isinstance(x, ast.UnaryOp) and isinstance(x.op, ast.USub) and isinstance(x.operand, ast.Constant) and x.operand.value == 1
+        def _find(x):
+            return isinstance(x, ast.Call) and isinstance(x.func, ast.Attribute) and x.func.attr == "find" and len(x.args) == 1 and not x.keywords
+        l0, r0, op0 = e.left, e.comparators[0], e.ops[0]
+        if _find(r0) and not _find(l0):
+            l0, r0 = r0, l0
+            op0 = {ast.Lt: ast.Gt, ast.Gt: ast.Lt, ast.LtE: ast.GtE, ast.GtE: ast.LtE}.get(type(op0), type(op0))()
+        if _find(l0):
+            member = None
+            if _neg1(r0) and isinstance(op0, (ast.NotEq, ast.Gt)):
+                member = True
+            elif _neg1(r0) and isinstance(op0, ast.Eq):
+                member = False
+            elif isinstance(r0, ast.Constant) and r0.value == 0 and isinstance(op0, ast.GtE):
+                member = True
+            elif isinstance(r0, ast.Constant) and r0.value == 0 and isinstance(op0, ast.Lt):
+                member = False
+            if member is not None:
+                e = ast.Compare(left=l0.args[0], ops=[ast.In()], comparators=[l0.func.value])
+                if not member:
+                    flip = not flip
+    if isinstance(e, ast.Compare) and len(e.ops) == 1:
         op, l, r = e.ops[0], e.left, e.comparators[0]
         if type(op) in _FLIP:
             op = _FLIP[type(op)]()
@@ -199,6 +223,38 @@ class _Fold(ast.NodeTransformer):
             if l is not None:
                 return l
         return n
+
+    def visit_ListComp(self, n: ast.ListComp):
+        n = self.generic_visit(n)
+        # [E for v in (c1, c2, ..)] over a display of constants is the display of its instances
+        if len(n.generators) == 1 and not n.generators[0].ifs and not n.generators[0].is_async and isinstance(n.generators[0].target, ast.Name) \
+                and isinstance(n.generators[0].iter, (ast.Tuple, ast.List)) and n.generators[0].iter.elts and all(isinstance(x, ast.Constant) for x in n.generators[0].iter.elts) \
+                and len(n.generators[0].iter.elts) <= 16:
+            v = n.generators[0].target.id
+            out = []
+            for c in n.generators[0].iter.elts:
+                inst = subst(copy.deepcopy(n.elt), {v: c})
+                out.append(self.visit(inst))
+            return ast.List(elts=out, ctx=ast.Load())
+        return n
+
+    def _splice(self, n):
+        n = self.generic_visit(n)
+        if any(isinstance(e, ast.Starred) and isinstance(e.value, (ast.List, ast.Tuple)) for e in n.elts):
+            elts = []
+            for e in n.elts:
+                if isinstance(e, ast.Starred) and isinstance(e.value, (ast.List, ast.Tuple)):
+                    elts.extend(e.value.elts)  # *(a, b) inside a display is a, b
+                else:
+                    elts.append(e)
+            n.elts = elts
+        return n
+
+    def visit_Tuple(self, n: ast.Tuple):
+        return self._splice(n) if isinstance(n.ctx, ast.Load) else self.generic_visit(n)
+
+    def visit_List(self, n: ast.List):
+        return self._splice(n) if isinstance(n.ctx, ast.Load) else self.generic_visit(n)
 
     def visit_FormattedValue(self, n: ast.FormattedValue):
         n = self.generic_visit(n)
@@ -824,6 +880,10 @@ class Summariser:
                             e2[f"%pre{n}"] = {nm: env[nm] for nm in guarded if nm in env}
                             self._opaque(e2, body_names)
                             t2 = {k: v for k, v in truth.items() if not (self._mentions(k) & body_names)}
+                            # library fact: the elements of a directory listing, of a split string, of a range are never None
+                            if isinstance(node.ast.target, ast.Name) and isinstance(it, ast.Call) and (
+                                    (isinstance(it.func, ast.Attribute) and it.func.attr in ("listdir", "split", "rsplit", "splitlines")) or (isinstance(it.func, ast.Name) and it.func.id == "range")):
+                                t2[f"None is {node.ast.target.id}"] = False
                             yield from self._walk(s, e2, t2, hist, ld, eff_iter, lstack + (node.line,))
                         else:
                             yield from self._walk(s, env, truth, hist, ld, effects, lstack)
@@ -1244,6 +1304,7 @@ class _Reducer:
             if isinstance(n, ast.Assign) and len(n.targets) == 1 and isinstance(n.targets[0], ast.Name):
                 vals[n.targets[0].id] = n.value
         self.once = {nm for nm in vals if stores.get(nm) == 1 and loads.get(nm) == 1}  # locals written once and read once
+        self.const_tuples = {nm: v for nm, v in vals.items() if stores.get(nm) == 1 and isinstance(v, ast.Tuple) and v.elts and all(isinstance(x, ast.Constant) for x in v.elts)}
         self.defs = {}
         for nm, v in vals.items():
             if stores.get(nm) == 1 and loads.get(nm) == 1 and (isinstance(v, ast.GeneratorExp) or (isinstance(v, ast.Call) and isinstance(v.func, ast.Name) and v.func.id in ("map", "filter"))):
@@ -1517,6 +1578,14 @@ class _Reducer:
             return [assign(ast.Constant(value=(kind != "any")))] + self._loops(g, inner, at)
         if kind == "first" and single:
             return [assign(extra["default"])] + self._loops(g, [assign(g.elt), brk], at)
+        if kind == "collect" and single and not g.generators[0].ifs and isinstance(g.generators[0].target, ast.Name):
+            it = g.generators[0].iter
+            if isinstance(it, ast.Name) and it.id in self.const_tuples:
+                it = self.const_tuples[it.id]
+            if isinstance(it, (ast.Tuple, ast.List)) and it.elts and len(it.elts) <= 16 and all(isinstance(x, ast.Constant) for x in it.elts):
+                # [E for v in (c1, c2, ..)]: the display of E's instances
+                v = g.generators[0].target.id
+                return [assign(ast.List(elts=[_Sub({v: c}).visit(copy.deepcopy(g.elt)) for c in it.elts], ctx=ast.Load()))]
         if kind == "collect":
             app = ast.copy_location(ast.Expr(value=ast.Call(func=ast.Attribute(value=load(), attr="append", ctx=ast.Load()), args=[g.elt], keywords=[])), at)
             return [assign(ast.List(elts=[], ctx=ast.Load()))] + self._loops(g, [app], at)
